@@ -51,6 +51,10 @@ def build_array(d):
         x = np.arange(n)
     elif fill == 'bool':
         x = rs.rand(n) < d.get('p', 0.5)
+    elif fill == 'centre':          # only the centre element (shape // 2) is set: the smallest non-empty element
+        x = np.zeros(n)
+        if n:
+            x[int(np.ravel_multi_index(tuple(s // 2 for s in shape), shape)) if len(shape) else 0] = 1
     elif fill == 'labels':          # blobs of non-negative labels 0..hi
         x = rs.randint(0, hi + 1, n) * (rs.rand(n) < 0.7)
     elif fill == 'signed':
